@@ -21,9 +21,11 @@ def gen_cases(ctx, n_grammars, n_inputs):
             ("reduced", lambda: G.reduced_random_grammar(rng)),
             ("reduced_big", lambda: G.reduced_random_grammar(rng, nrules=rng.randint(4, 7), ntoks=rng.randint(2, 5))),
             ("nullable", lambda: G.nullable_heavy(rng)),
-            ("exprnoprec", lambda: G.expr_grammar(rng, with_prec=False))]
+            ("exprnoprec", lambda: G.expr_grammar(rng, with_prec=False)),
+            ("layered", lambda: G.layered_grammar(rng).reduced()),
+            ("chain", lambda: G.chain_grammar(rng).reduced())]
     while len(cases) < n_grammars:
-        name, f = rng.choices(fams, [6, 5, 3, 3, 1])[0]
+        name, f = rng.choices(fams, [6, 5, 3, 3, 1, 5, 3])[0]
         g = f()
         if g is None or not g.is_reduced() or g.derives_cycle():
             continue
